@@ -40,28 +40,28 @@ Theorem C08_growth_preserves_bytes : forall m n, 0 <= n ->
   forall i, Z.of_nat (length m) <= i -> BufOpsProofs.byte m' i = 0.
 Proof. exact BufOpsProofs.grow_preserves. Qed.
 
-(* byte level, general: a reference slot holding rel denotes whatever is represented at slot+rel: a
-   reference to any (reference-free) object decodes to that object, of the recorded member type for a
-   union reference, and keeps doing so when the buffer grows (old bytes at the same offsets) *)
+(* BYTE LEVEL, GENERAL.  [targets_ok t v m off]: every reference slot of the object (type t, value v, lying
+   at off in m) holds the null word (VNull; and member index -1 for a union reference) or an offset rel,
+   relative to the slot itself, such that the referent's documented image sits at slot+rel and the
+   referent's own slots are [targets_ok] again -- through structs, arrays, unions, to any depth.  Then the
+   decoder written from the documentation, following every reference, returns exactly the value: *)
+Theorem C08_heap_decodes : forall t v img m off,
+  enc t v = Some img -> sits img m off -> len img < 2^62 -> targets_ok t v m off -> dec t m off = Some (v, len img).
+Proof. exact RT_all. Qed.
+(* one slot *)
 Theorem C08_reference_resolves : forall t v img rel m off,
   - 2^63 < rel < 2^63 -> sits (bytes (enc64 rel)) m off ->
-  enc t v = Some img -> sits img m (off + rel) -> len img < 2^62 ->
+  enc t v = Some img -> sits img m (off + rel) -> len img < 2^62 -> targets_ok t v m (off + rel) ->
   dec (TRef t) m off = Some (VRef v, 8).
 Proof. exact dec_ref_resolves. Qed.
-Theorem C08_union_reference_resolves : forall ms k mt v img rel m off,
-  - 2^63 < rel < 2^63 -> sits (bytes (enc64 rel) ++ bytes (enc64 (Z.of_nat k))) m off -> Z.of_nat k < 2^63 ->
-  nth_error ms k = Some mt -> enc mt v = Some img -> sits img m (off + rel) -> len img < 2^62 ->
-  dec (TUnion ms) m off = Some (VMember k v, 16).
-Proof. exact dec_union_resolves. Qed.
-Theorem C08_union_null : forall ms m off, sits (bytes (enc64 NULLVALUE) ++ bytes (enc64 (-1))) m off -> dec (TUnion ms) m off = Some (VNull, 16).
-Proof. exact dec_union_null. Qed.
-Theorem C08_reference_survives_growth : forall t v img rel m off extra,
-  - 2^63 < rel < 2^63 -> sits (bytes (enc64 rel)) m off ->
-  enc t v = Some img -> sits img m (off + rel) -> len img < 2^62 ->
-  dec (TRef t) (m ++ extra) off = Some (VRef v, 8).
-Proof. exact ref_survives_growth. Qed.
-Theorem C08_objects_survive_growth : forall t v img m off extra,
-  enc t v = Some img -> sits img m off -> len img < 2^62 -> dec t (m ++ extra) off = dec t m off.
+(* growth: the new storage holds the old bytes at the same offsets, followed by more bytes.  What the
+   reference slots must hold stays true (offsets are slot-relative), so every object of the buffer --
+   holding references to any depth -- decodes exactly as before, however often the buffer grows *)
+Theorem C08_targets_survive_growth : forall t v m off extra, targets_ok t v m off -> targets_ok t v (m ++ extra) off.
+Proof. exact targets_ok_grow. Qed.
+Theorem C08_heap_survives_growth : forall t v img m off extra,
+  enc t v = Some img -> sits img m off -> len img < 2^62 -> targets_ok t v m off ->
+  dec t (m ++ extra) off = Some (v, len img) /\ dec t m off = Some (v, len img).
 Proof. exact dec_survives_growth. Qed.
 
 Print Assumptions C08_bind_existing_aliases.
@@ -72,7 +72,6 @@ Print Assumptions C08_null_slot_decodes.
 Print Assumptions C08_union_null_needs_minus_one.
 Print Assumptions C08_growth_preserves_bytes.
 Print Assumptions C08_reference_resolves.
-Print Assumptions C08_union_reference_resolves.
-Print Assumptions C08_union_null.
-Print Assumptions C08_reference_survives_growth.
-Print Assumptions C08_objects_survive_growth.
+Print Assumptions C08_heap_decodes.
+Print Assumptions C08_targets_survive_growth.
+Print Assumptions C08_heap_survives_growth.
